@@ -16,10 +16,10 @@ THEOREMS = ["C19.other_subgraphs_untouched", "C19.performer_local", "C19.hcodes_
 def gen(rng, i):
     if i % 4 == 1:
         # one weight tied across two signatures whose readers sit at different operator positions x per-name / shipped / per-op recipes
-        case = fp.gen_tied_case(rng, i, nsg=2)
+        case = fp.gen_tied_case(rng, i, nsg=2, extras=(i % 8 == 1))   # mostly the focused form: tied weights only
         r = rng.random()
         if r < 0.8 and "tied_scalars_only" not in case.info["tags"]:
-            cfgs = [pl.UNIFORM[k] for k in ("wo8", "wo8a", "wo4", "drq8", "drq4", "a8w8")] + [pl.FP16]
+            cfgs = [pl.UNIFORM[k] for k in ("wo8", "wo8a", "wo4", "wo4", "wo4a", "drq8", "drq4", "drq4", "drq4c", "a8w8", "a8w4")] + [pl.FP16]
             cfg = rng.choice(cfgs)
             alg = "float_casting" if cfg is pl.FP16 else "min_max_uniform_quantize"
             op = "FULLY_CONNECTED" if cfg is pl.FP16 else rng.choice(["FULLY_CONNECTED", "*"])
